@@ -101,9 +101,94 @@ func genNilDataRef(r *Rng, out *outFiles) {
 	out.put(caseLine, line, verdict("C06", why), verdict("C05", why))
 }
 
+// genManyIncludesRef: acyclic inclusion is not bounded by how MANY fragments one execution includes — only nesting is:
+// a call site under a range over 129..300 items, 129..200 sibling call sites, and one template object executed 130
+// times (C07: insert / replace render the fragment; C16: every later execution like the first)
+func genManyIncludesRef(r *Rng, out *outFiles) {
+	cfg := tmplCfg{ap: ":", tp: "t:", global: map[string]any{}}
+	shape := r.Intn(3)
+	n := 129 + r.Intn(172)
+	cmd := r.Pick([]string{"insert", "replace"})
+	frag := `<div :define="f"><b :text="${x}">z</b></div>` // the fragment is the CONTENT of the defining element
+	var src, want strings.Builder
+	data := map[string]any{}
+	runs := 1
+	switch shape {
+	case 0: // under range
+		xs := make([]any, n)
+		for i := range xs {
+			xs[i] = strconv.Itoa(i)
+		}
+		data["big"] = xs
+		src.WriteString(`<i :range="_, x : big" :` + cmd + `="f">old</i>`)
+		for i := 0; i < n; i++ {
+			if cmd == "insert" {
+				want.WriteString("<i><b>" + strconv.Itoa(i) + "</b></i>")
+			} else {
+				want.WriteString("<b>" + strconv.Itoa(i) + "</b>")
+			}
+		}
+	case 1: // sibling call sites
+		if n > 200 {
+			n = 200
+		}
+		data["x"] = "s"
+		for i := 0; i < n; i++ {
+			src.WriteString(`<i :` + cmd + `="f"></i>`)
+			if cmd == "insert" {
+				want.WriteString("<i><b>s</b></i>")
+			} else {
+				want.WriteString("<b>s</b>")
+			}
+		}
+	default: // one object, many executions
+		data["x"] = "r"
+		runs = 130
+		src.WriteString(`<i :` + cmd + `="f"></i>`)
+		if cmd == "insert" {
+			want.WriteString("<i><b>r</b></i>")
+		} else {
+			want.WriteString("<b>r</b>")
+		}
+	}
+	caseLine := fmt.Sprintf("fuzz ref-manyincludes shape=%d n=%d %s", shape, n, cmd)
+	noteInput(caseLine)
+	why, line := "", "REF ok"
+	func() {
+		defer func() {
+			if x := recover(); x != nil {
+				why = fmt.Sprintf("many includes (%s): panic %v", caseLine, x)
+			}
+		}()
+		m, le := newManager(cfg, [][2]string{{"n.html", src.String() + frag}})
+		if le != "" {
+			why = "template did not load: " + le
+			return
+		}
+		tpl, _ := m.GetTemplate("n.html")
+		for k := 0; k < runs && why == ""; k++ {
+			var sb strings.Builder
+			if err := tpl.Execute(&sb, data); err != nil {
+				why = fmt.Sprintf("%s: execution %d of an ACYCLIC template fails: %v", caseLine, k+1, err)
+			} else if sb.String() != want.String() {
+				why = fmt.Sprintf("%s: execution %d renders %.120q..., expected %.120q...", caseLine, k+1, sb.String(), want.String())
+			}
+		}
+	}()
+	if why != "" {
+		line = "REF differs"
+	}
+	out.count("ref-manyincludes")
+	out.put(caseLine, line, verdict("C07", why), verdict("C16", why))
+}
+
 func genRefCase(r *Rng, out *outFiles) {
 	if r.Chance(6) {
 		genNilDataRef(r, out)
+		return
+	}
+	if r.Chance(2) {
+		genManyIncludesRef(r, out)
 		return
 	}
 	if r.Chance(35) {
@@ -238,6 +323,9 @@ func genRefCase(r *Rng, out *outFiles) {
 	xexpr := X
 	if structs && X != "" {
 		xexpr = X + ".Name"
+		if r.Bool() { // the item as a whole, handed to a function whose parameter is the struct type (by value)
+			xexpr = "nameOf(" + X + ")"
+		}
 	}
 	if nested {
 		xexpr = ""
